@@ -15,7 +15,7 @@
 // The oracle is a single left-to-right pass with a 3-state recogniser; the scanner under test uses nested index loops.
 use super::*;
 
-const MAXL: usize = 8;
+const MAXL: usize = 10;
 
 #[derive(Clone, Copy, PartialEq, Eq)]
 enum St {
@@ -189,12 +189,14 @@ macro_rules! mls {
     };
 }
 // unwind = L + 3: the longest loop is the oracle's / the generator's pass over L + 2 bytes
-mls!(mls_len0, 0, 3, [cov_rejected]);
-mls!(mls_len1, 1, 4, [cov_rejected, cov_rejected_nl]);
-mls!(mls_len2, 2, 5, [cov_rejected, cov_rejected_nl]);
-mls!(mls_len3, 3, 6, [cov_rejected, cov_rejected_nl, cov_accept]);
-mls!(mls_len4, 4, 7, [cov_rejected, cov_rejected_nl, cov_accept, cov_accept4]);
-mls!(mls_len5, 5, 8, [cov_rejected, cov_rejected_nl, cov_accept, cov_accept4, cov_accept5]);
-mls!(mls_len6, 6, 9, [cov_rejected, cov_rejected_nl, cov_accept, cov_accept4, cov_accept5, cov_accept6]);
-mls!(mls_len7, 7, 10, [cov_rejected, cov_rejected_nl, cov_accept, cov_accept4, cov_accept5, cov_accept6]);
-mls!(mls_len8, 8, 11, [cov_rejected, cov_rejected_nl, cov_accept, cov_accept4, cov_accept5, cov_accept6]);
+mls!(mls_len00, 0, 3, [cov_rejected]);
+mls!(mls_len01, 1, 4, [cov_rejected, cov_rejected_nl]);
+mls!(mls_len02, 2, 5, [cov_rejected, cov_rejected_nl]);
+mls!(mls_len03, 3, 6, [cov_rejected, cov_rejected_nl, cov_accept]);
+mls!(mls_len04, 4, 7, [cov_rejected, cov_rejected_nl, cov_accept, cov_accept4]);
+mls!(mls_len05, 5, 8, [cov_rejected, cov_rejected_nl, cov_accept, cov_accept4, cov_accept5]);
+mls!(mls_len06, 6, 9, [cov_rejected, cov_rejected_nl, cov_accept, cov_accept4, cov_accept5, cov_accept6]);
+mls!(mls_len07, 7, 10, [cov_rejected, cov_rejected_nl, cov_accept, cov_accept4, cov_accept5, cov_accept6]);
+mls!(mls_len08, 8, 11, [cov_rejected, cov_rejected_nl, cov_accept, cov_accept4, cov_accept5, cov_accept6]);
+mls!(mls_len09, 9, 12, [cov_rejected, cov_rejected_nl, cov_accept, cov_accept4, cov_accept5, cov_accept6]);
+mls!(mls_len10, 10, 13, [cov_rejected, cov_rejected_nl, cov_accept, cov_accept4, cov_accept5, cov_accept6]);
